@@ -5,7 +5,10 @@ Correspondence (bit-exact, rne53): tick map vs pretty_midi, writer model vs the 
 writer builds, reader model vs midi_to_note_sequence on PrettyMIDI objects.
 MONITORED ONLY (sampling across third-party code, labelled so in the evidence): the byte-level round trip
 PrettyMIDI.write -> mido -> PrettyMIDI(file), compared with the composed model's prediction and judged by
-an independent oracle that evaluates the round-trip statement in exact Fraction arithmetic.
+an independent oracle that evaluates the round-trip statement in exact Fraction arithmetic.  The monitor includes a few
+VERY LONG sequences (corpus long-*.json + stream `verylong`: last tick around / beyond 10^7, pretty_midi's default loader
+limit that midi_io raises at import); the limit in force is regenerated into Generated/C03.lean (`MAX_TICK`), the composed
+model's tick guard uses it and `midi_reader_accepts_long_files` is proved from it.
 """
 import ast
 import inspect
@@ -23,7 +26,7 @@ PID = 'C03'
 MODULES = ['NoteSeqVerif.Props.C03']
 EXE = 'drv_c03'
 THEOREMS = [
-    'NSV.C03.source_shape',
+    'NSV.C03.source_shape', 'NSV.C03.midi_reader_accepts_long_files',
     'NSV.C03.midi_groups_partition', 'NSV.C03.midi_groups_written', 'NSV.C03.midi_groups_roundtrip',
     'NSV.C03.midi_tempo_map_order_independent', 'NSV.C03.midi_write_order_independent',
     'NSV.C03.midi_tempo_map_sorted',
@@ -89,6 +92,15 @@ def generate(chk):
     for k in broken:
         facts[k] = defaults[k]
     KS = music_pb2.NoteSequence.KeySignature
+    # pretty_midi's loader limit as it stands once note_seq.midi_io has been imported (midi_io overrides it at import)
+    import pretty_midi
+    mt = pretty_midi.pretty_midi.MAX_TICK
+    try:
+        max_tick = 10 ** 30 if mt == float('inf') else math.floor(mt)
+    except (TypeError, ValueError, OverflowError):
+        max_tick = 0
+        chk.broken.append('translator:C03 (pretty_midi.pretty_midi.MAX_TICK = %r is not a number)' % (mt,))
+    chk.translit['pretty_midi.MAX_TICK after import of midi_io'] = repr(mt)
     b = lambda x: 'true' if x else 'false'
     txt = ('/-! GENERATED from /repo on every run by harness/c03.py — do not edit. -/\n'
            'namespace NSV.C03.Gen\n'
@@ -108,6 +120,9 @@ def generate(chk):
            'def GROUP_LOOP_SORTED : Bool := %s\n' % b(facts['group_sorted'])
            + '/-- AST of midi_to_note_sequence: `key_number %% K` and `key_number // K` -/\n'
            'def KEY_DECODE_MODULUS : Int := %d\n' % facts['key_mod']
+           + '/-- `pretty_midi.pretty_midi.MAX_TICK` in force after `import note_seq.midi_io` (floor): the loader refuses a\n'
+           'file whose largest tick + 1 exceeds it -/\n'
+           'def MAX_TICK : Int := %d\n' % max_tick
            + 'end NSV.C03.Gen\n')
     chk.regenerate('NoteSeqVerif/Generated/C03.lean', txt)
 
@@ -386,6 +401,110 @@ def gen_valid(rng, long_times=False):
     return ns, hist
 
 
+# pretty_midi's own loader limit (`MAX_TICK = 1e7`): note_seq.midi_io raises it at import time, so files beyond it must
+# still read back.  The quantifier of C03 has no bound on length; these cases lie just around and well above 10^7 ticks.
+PM_DEFAULT_MAX_TICK = 10 ** 7
+VERY_LONG_TARGETS = ('at-limit', 'just-above', 'well-above', 'just-below')
+
+
+def exact_us_tempo(rng, tpq):
+    """a tempo whose microseconds-per-quarter value is an integer that pretty_midi.write's float formula
+    int(6e7 / (60. / (tick_scale * resolution))) reproduces exactly at this resolution - so that the open finding
+    F-C03-3 (a tempo truncated by 1 us makes long sequences drift) is not what a very long case exercises."""
+    for _ in range(50):
+        us = rng.choice([200000, 250000, 300000, 400000, 500000, 600000, 240000, 1000000])
+        qpm = 6e7 / us
+        c = 60.0 / (qpm * tpq)
+        if int(6e7 / (60. / (c * tpq))) == us and 6e7 / us == qpm:
+            return qpm
+    return 120.0
+
+
+def gen_very_long(rng, target):
+    """a MIDI-representable sequence of a handful of notes whose LAST event lies around / beyond tick 10^7
+    (pretty_midi's default loader limit): high resolution, fast integral-microsecond tempos, one early tempo change
+    at most, several groups.  `target`: 'just-below' (last tick 10^7 - 3: the loader's max_tick = 10^7 - 1),
+    'at-limit' (last tick 10^7 - 1 or 10^7: the first files the default limit refuses), 'just-above', 'well-above'."""
+    from note_seq.protobuf import music_pb2
+    ns = music_pb2.NoteSequence()
+    tpq = rng.choice([960, 960, 480])
+    ns.ticks_per_quarter = tpq
+    hist = {'verylong:' + target, 'tpq:>=500' if tpq >= 500 else 'tpq:<500'}
+    tempos = [(0.0, exact_us_tempo(rng, tpq))]
+    if rng.random() < 0.4:
+        # one early change, exactly on a tick of the first tempo
+        x = rng.choice([tpq, 2 * tpq, rng.randrange(1, 4 * tpq)])
+        tempos.append((float(F(x) * F(60) / (F(tempos[0][1]) * tpq)), exact_us_tempo(rng, tpq)))
+        hist.add('tempo:2')
+    else:
+        hist.add('tempo:1')
+    stored = list(tempos)
+    rng.shuffle(stored)
+    for t, q in stored:
+        x = ns.tempos.add()
+        x.time, x.qpm = t, q
+    tm = TempoMap(tpq, tempos)
+    last = {'just-below': PM_DEFAULT_MAX_TICK - 3,
+            'at-limit': PM_DEFAULT_MAX_TICK - rng.choice([1, 0]),
+            'just-above': PM_DEFAULT_MAX_TICK + rng.choice([1, 2, 8000, rng.randrange(3, 100000)]),
+            'well-above': rng.randrange(12 * 10 ** 6, 17 * 10 ** 6)}[target]
+    groups = [(0, 0, False)] + rng.sample([(0, 5, False), (1, 0, False), (1, 40, False), (9, 0, True)], rng.choice([0, 1, 2]))
+    if len({g[0] for g in groups}) < len(groups):
+        hist.add('groups:several-programs-per-instrument')
+    pitches = rng.sample(range(36, 96), 6)
+    spans = []           # (start tick, end tick, group)
+    x = 0
+    for i in range(rng.choice([1, 2, 3])):          # a few notes at the very beginning
+        ell = rng.choice([3, tpq // 2, tpq])
+        spans.append((x, x + ell, groups[i % len(groups)]))
+        x += ell
+    if rng.random() < 0.5:                          # one somewhere in the middle
+        mid = rng.randrange(10 ** 6, 9 * 10 ** 6)
+        spans.append((mid, mid + rng.choice([3, 100, tpq]), rng.choice(groups)))
+    for g in groups[1:]:                            # every group has a note (events need an instrument with notes)
+        if all(sp[2] != g for sp in spans):
+            spans.append((x, x + tpq // 2, g))
+            x += tpq // 2
+    ell = rng.choice([3, 10, tpq // 2, 5 * tpq])
+    spans.append((last - ell, last, rng.choice(groups)))   # the LAST note ends on tick `last`
+    for i, (a, b, g) in enumerate(spans):
+        n = ns.notes.add()
+        n.instrument, n.program, n.is_drum = g
+        n.pitch, n.velocity = pitches[i % len(pitches)], rng.choice([1, 127, 80, rng.randrange(1, 128)])
+        n.start_time, n.end_time = float(tm.time_of(F(a))), float(tm.time_of(F(b)))
+    ns.total_time = max(n.end_time for n in ns.notes)
+    g = spans[-1][2]
+    if rng.random() < 0.5:                          # a late control change / bend on the last note's instrument
+        c = ns.control_changes.add()
+        c.instrument, c.program, c.is_drum = g
+        c.time, c.control_number, c.control_value = float(tm.time_of(F(last - ell))), 64, rng.choice([0, 127])
+        hist.add('cc')
+    if rng.random() < 0.3:
+        p = ns.pitch_bends.add()
+        p.instrument, p.program, p.is_drum = g
+        p.time, p.bend = float(tm.time_of(F(last - 1))), rng.choice([-8192, 8191, 100])
+        hist.add('bend')
+    if rng.random() < 0.5:
+        ts = ns.time_signatures.add()
+        ts.time, ts.numerator, ts.denominator = 0.0, rng.choice([4, 3, 6]), rng.choice([4, 8])
+        hist.add('tsig')
+    if rng.random() < 0.3:
+        ks = ns.key_signatures.add()
+        ks.time, ks.key, ks.mode = 0.0, rng.randrange(12), rng.choice([0, 1])
+        hist.add('ksig:minor' if ks.mode else 'ksig:major')
+    return ns, hist
+
+
+def last_tick_class(ns):
+    """where the last event of `ns` lies relative to pretty_midi's default loader limit (exact arithmetic, nearest tick)"""
+    tm = TempoMap(ns.ticks_per_quarter or 220, [(t.time, t.qpm) for t in ns.tempos])
+    ts = [n.end_time for n in ns.notes] + [e.time for f in (ns.control_changes, ns.pitch_bends, ns.time_signatures,
+                                                          ns.key_signatures, ns.tempos) for e in f] + [0.0]
+    k = math.floor(tm.tick_of(F(max(ts))) + F(1, 2))
+    return 'last-tick:' + ('<=10^6' if k <= 10 ** 6 else '<10^7-2' if k + 2 < PM_DEFAULT_MAX_TICK else
+                           '10^7-2..10^7' if k <= PM_DEFAULT_MAX_TICK else '10^7..1.2*10^7' if k <= 12 * 10 ** 6 else '>1.2*10^7')
+
+
 def gen_malformed(rng):
     """sequences outside the quantifier that the writer must still treat as the model says: several tempos at one
     time (incl. two at time 0), zero tempos, bad time/key signatures, other key modes, reversed notes, events on
@@ -657,12 +776,15 @@ def drift_corrected(ns, r, default_qpm=120.0):
     return c
 
 
+RAISED = 'round trip raised '
+
+
 def oracle_case(midi_io, ns, shuffle_rng=None):
     """run the real round trip and judge it.  Returns (what-fails-or-None, result, finding-id-or-None)."""
     try:
         r, _ = roundtrip(midi_io, ns)
     except Exception as e:  # pylint: disable=broad-except
-        return 'round trip raised %s: %s' % (type(e).__name__, str(e)[:120]), None, None
+        return RAISED + '%s: %s' % (type(e).__name__, str(e)[:160]), None, None
     what = oracle(ns, r)
     if what is None and shuffle_rng is not None:
         sh = nswire.shuffled(ns, shuffle_rng)
@@ -736,7 +858,9 @@ def run(chk):
                 'exactly two ticks long / touching, control changes and bends on instruments with notes, power-of-two time '
                 'signatures, major/minor keys, ticks_per_quarter 24..960 or unset) plus a malformed stream (zero / duplicate-time '
                 'tempos, bad signatures, other key modes, reversed notes, odd instrument numbers and programs, '
-                'drop_events_n_seconds_after_last_note); non-trivial = distinct request on which model and implementation return a value or a documented error')
+                'drop_events_n_seconds_after_last_note); a few VERY LONG sequences (a handful of notes, 480/960 ticks per quarter, '
+                'integral-microsecond tempos, last event just below / at / just above / well above tick 10^7 = pretty_midi\'s default '
+                'loader limit, which midi_io raises); non-trivial = distinct request on which model and implementation return a value or a documented error')
     reqs, impl, meta = [], [], []
 
     def add(stream, req, res, hist, key=None):
@@ -767,6 +891,12 @@ def run(chk):
     seqs = []
     for name, obj in corpus_cases(PID):
         seqs.append(('corpus:' + name, corpus_sequence(obj), None, {'corpus'}))
+    # a handful of VERY LONG sequences (last tick around / beyond pretty_midi's default loader limit of 10^7): cheap
+    # (few notes), but the reader allocates one float per tick, so only a few per run
+    rng = chk.subrng('verylong')
+    for i in range(chk.n(3, 12)):
+        ns, hist = gen_very_long(rng, VERY_LONG_TARGETS[i % len(VERY_LONG_TARGETS)])
+        seqs.append(('verylong', ns, None, hist))
     rng = chk.subrng('valid')
     for _ in range(chk.n(1500, 20000)):
         ns, hist = gen_valid(rng)
@@ -855,26 +985,34 @@ def run(chk):
     rt_reqs, rt_real = [], []
     for kind, ns in todo:
         what, r, finding = oracle_case(midi_io, ns, srng)
-        chk.count('roundtrip-monitor', None, hist=['stream:' + kind.split(':')[0], 'verdict:' + ('holds' if what is None else 'FAILS')])
+        chk.count('roundtrip-monitor', None, hist=['stream:' + kind.split(':')[0], 'verdict:' + ('holds' if what is None else 'FAILS'),
+                                                   last_tick_class(ns)])
         if r is not None:
             rt_reqs.append('rt - ' + nswire.encode(ns))
             rt_real.append((kind, r))
+        elif what and what.startswith(RAISED):
+            # the real round trip raised: the composed model (incl. the loader's tick guard) must predict that too
+            rt_reqs.append('rt - ' + nswire.encode(ns))
+            rt_real.append((kind, 'err ' + what[len(RAISED):].split(':')[0]))
         if what:
             chk.fail(what, {'sequence': nswire.encode(ns)}, finding=finding)
             if len(chk.failures) > 20:
                 break
     # the composed model (writer -> assumed transport contract -> reader) must predict the real byte-level round trip
     rt_model = chk.driver(EXE, rt_reqs)
-    if rt_reqs:
-        chk.sample({'request': rt_reqs[-1][:260] + ' …', 'real_round_trip': repr(canon(rt_real[-1][1]))[:300] + ' …',
-                    'predicted_equal': rt_model[-1].startswith('ok NS') and canon(nswire.decode(rt_model[-1])) == canon(rt_real[-1][1]),
+    okk = [i for i, (_, r) in enumerate(rt_real) if not isinstance(r, str)]
+    if okk:
+        i = okk[-1]
+        chk.sample({'request': rt_reqs[i][:260] + ' …', 'real_round_trip': repr(canon(rt_real[i][1]))[:300] + ' …',
+                    'predicted_equal': rt_model[i].startswith('ok NS') and canon(nswire.decode(rt_model[i])) == canon(rt_real[i][1]),
                     'label': 'end-to-end monitor across third-party code (sampling, not proof)'})
     for req, (kind, r), line in zip(rt_reqs, rt_real, rt_model):
         chk.count('roundtrip-predicted', req[:3000], line.startswith('ok'), hist=['stream:' + kind.split(':')[0]])
         pred = canon(nswire.decode(line)) if line.startswith('ok NS') else line
-        if pred != canon(r):
+        real = r if isinstance(r, str) else canon(r)
+        if pred != real:
             chk.disagree('roundtrip-predicted (third-party contract, monitored)', {'request': req[:6000]},
-                         repr(canon(r))[:800], repr(pred)[:800])
+                         repr(real)[:800], repr(pred)[:800])
     # every known finding of this property is replayed
     for e in chk.known:
         m = e.get('match', {})
